@@ -24,13 +24,14 @@ ASSUMPTIONS = ["cache_info() values, object identity of results and warnings are
 
 POOL_MAX = 8
 HOST_POOL = ["h", "H", "h.example", "a b", "a_b", "a\\b", "пример", "ПРИМЕР", "☃.NET", "127.0.0.1", "[::1]", "[0:0::1]", "[fe80::1%eth0]", "xn--n3h", "a%41", "ex ample"]
+BIG_TEXTS = [" \xe9/%2f" * 1800, "c d/" * 2600]
 TEXT_POOL = ["", "a", "A", "a b", "a%20b", "%41", "a/b", "a+b", "é", "%C3%A9", "k=v", "k=v&k=w", "x#y", "?", ".", "..", "%2F", "u:p", "@",
              # halves of multi-byte escape runs and dangling '%': hidden state carried from one call into the next would join them
              "..profile", "...rc", "..%D1%84", ".a.b", "%E2%82", "%AC", "%C3", "%A9", "x%E2", "%82%ACy", "%F0%9F", "%98%80", "%", "a%", "41", "%4", "1"]
 
 
 def txt():
-    return st.one_of(st.sampled_from(TEXT_POOL), st.sampled_from(TEXT_POOL), gen.text(max_tokens=3))
+    return st.one_of(st.sampled_from(TEXT_POOL), st.sampled_from(TEXT_POOL), gen.text(max_tokens=3), st.sampled_from(TEXT_POOL + BIG_TEXTS))
 
 
 def hosts():
@@ -300,6 +301,11 @@ class Machine(RuleBasedStateMachine):
     @rule(i=st.integers(0, 7), op=prog.op(txt(), hosts(), with_join=False))
     def mod(self, i, op):
         self.s.step(["mod", i, op])
+
+    @rule(i=st.integers(0, 7), name=st.sampled_from(["with_query", "update_query", "extend_query"]),
+          val=st.sampled_from([0.0, -0.0, 1, True - 1, 1e16, -1e20, 2.5, 10 ** 20]), key=st.sampled_from(["lat", "k", "a b"]))
+    def numeric_query(self, i, name, val, key):
+        self.s.step(["mod", i, [name, {key: val}]])
 
     @rule(i=st.integers(0, 7), proto=st.integers(0, 5))
     def pickle_(self, i, proto):
